@@ -503,6 +503,81 @@ let lexed_s = function
   | LPrevObsolete -> "prev-obsolete"
   | LLine (o, h, a) -> "line " ^ b01 o ^ " " ^ b01 h ^ " " ^
     (match a with ASkip -> "skip" | AFail d -> "fail " ^ detail_s d | AProc (y, c) -> "proc " ^ sym_s y ^ " " ^ out_str c)
+(* ---------- format strings ---------- *)
+let rec ints_of_str (l : n list) : int list = List.map (fun x -> ZA.to_int (zarith_of_n x)) l
+let out_ints (l : int list) : string = "s" ^ String.concat "," (List.map string_of_int l)
+let perl_item_s = function PLit t -> "L" ^ out_str t | PField n -> "F" ^ out_str n
+let perl_res_s (r : (pitem list, perl_err) outcome) : string =
+  match r with
+  | Ok its ->
+    let names = List.sort_uniq compare (List.map ints_of_str (names_of its)) in
+    "ok " ^ String.concat " " (List.map perl_item_s its) ^ " | " ^ String.concat " " (List.map out_ints names)
+  | Err p -> "err Error " ^ out_str p   (* perl_err is extracted as its single field *)
+  | Crash c -> "crash " ^ crash_name c
+
+(* python %-format *)
+let ptype_s = function TyInt -> "int" | TyFloat -> "float" | TyChr -> "chr" | TyStr -> "str" | TyObject -> "object" | TyNone -> "None"
+let seqarg_s = function SVarWidth -> "*w" | SVarPrec -> "*p" | SConv t -> ptype_s t
+let pywarn_s = function
+  | WFlag a -> "F" ^ String.concat "." (List.map ns a)
+  | WPrec -> "P" | WLength c -> "L" ^ ns c | WObsolete -> "O"
+let pyerr_s = function
+  | EError0 r -> "Error " ^ out_str r | EForbiddenKey -> "ForbiddenArgumentKey" | EMixture -> "ArgumentIndexingMixture"
+  | ETypeMismatch -> "ArgumentTypeMismatch" | EWidthRange -> "WidthRangeError" | EPrecRange -> "PrecisionRangeError"
+let fmtpy_res_s = function
+  | Ok sg ->
+    "ok S:" ^ String.concat "," (List.map seqarg_s sg.seq_arguments)
+    ^ " M:" ^ String.concat ";" (List.map (fun (k, ts) -> out_str k ^ "=" ^ String.concat "+" (List.map ptype_s ts)) sg.map_arguments)
+    ^ " W:" ^ String.concat ";" (List.map pywarn_s sg.warnings)
+  | Err e -> "err " ^ pyerr_s e
+  | Crash c -> "crash " ^ crash_name c
+let static_s = function SIncompleteKey -> "key" | SIncompleteFormat -> "format" | SWidthTooBig -> "width" | SPrecTooBig -> "prec"
+let event_s = function
+  | EvNeedMapping -> "NM" | EvLookup k -> "LK" ^ out_str k | EvStarWidth -> "SW" | EvStarPrec -> "SP"
+  | EvConv c -> "C" ^ ns c | EvPercent b -> if b then "P1" else "P0" | EvUnsupported c -> "U" ^ ns c
+  | EvStatic e -> "X" ^ static_s e
+let cres_s = function RSuccess -> "Success" | RValueError -> "ValueError" | RTypeError -> "TypeError"
+  | RKeyError -> "KeyError" | ROverflowError -> "OverflowError"
+(* values in prefix notation over the argument array: i<z> f n s<codes> T <n> v... D <n> s<key> v ... *)
+let rec arg_val (a : string array) (i : int) : pyval * int =
+  let t = a.(i) in
+  match t.[0] with
+  | 'i' -> (VInt (arg_z (String.sub t 1 (String.length t - 1))), i + 1)
+  | 'f' -> (VFloat, i + 1)
+  | 'n' -> (VNone, i + 1)
+  | 's' -> (VStr (arg_str t), i + 1)
+  | 'T' -> let n = arg_int a.(i + 1) in
+    let rec go k j acc = if k = 0 then (List.rev acc, j) else let (v, j') = arg_val a j in go (k - 1) j' (v :: acc) in
+    let (l, j) = go n (i + 2) [] in (VTuple l, j)
+  | 'D' -> let n = arg_int a.(i + 1) in
+    let rec go k j acc = if k = 0 then (List.rev acc, j) else
+        let key = arg_str a.(j) in let (v, j') = arg_val a (j + 1) in go (k - 1) j' ((key, v) :: acc) in
+    let (l, j) = go n (i + 2) [] in (VDict l, j)
+  | _ -> failwith ("bad value " ^ t)
+
+(* python brace format *)
+let tset_s (t : tset) = String.concat "+" (List.filter (fun x -> x <> "")
+  [(if t.t_str0 then "str" else ""); (if t.t_int0 then "int" else ""); (if t.t_float then "float" else "")])
+let akey_s = function KNum n -> "N" ^ zs n | KName s -> "S" ^ out_str s
+let pberr_s = function
+  | BError p -> "Error " ^ out_str p | BFieldError t -> "Error " ^ out_str t | BConversionError -> "ConversionError"
+  | BFormatError -> "FormatError" | BFormatTypeMismatch -> "FormatTypeMismatch"
+  | BNumberingMixture -> "ArgumentNumberingMixture" | BRangeError -> "ArgumentRangeError" | BTypeMismatch -> "ArgumentTypeMismatch"
+let pybrace_res_s = function
+  | Ok (sg : pb_sig) -> "ok " ^ String.concat ";" (List.map (fun (k, (t, n)) -> akey_s k ^ "=" ^ tset_s t ^ "x" ^ string_of_int (int_of_nat n)) sg)
+  | Err e -> "err " ^ pberr_s e
+  | Crash c -> "crash " ^ crash_name c
+let optn_s = function None -> "-" | Some c -> ns c
+let mitem_s ((lit, f) : mitem) = match f with
+  | None -> "L" ^ out_str lit
+  | Some f -> "F" ^ out_str lit ^ ":" ^ out_str f.m_name ^ ":" ^ out_str f.m_spec ^ ":" ^ optn_s f.m_conv
+let fres_s = function FSuccess -> "Success" | FValueError -> "ValueError" | FIndexError -> "IndexError"
+  | FKeyError -> "KeyError" | FOverflowError -> "OverflowError" | FOutside -> "Outside"
+let bval_of (t : string) : bval = match t.[0] with
+  | 'i' -> BInt (arg_z (String.sub t 1 (String.length t - 1)))
+  | 'f' -> BFloat
+  | 's' -> BStr (arg_str t)
+  | _ -> failwith ("bad bval " ^ t)
 
 (* ---------- dispatch ---------- *)
 let handle (op : string) (a : string array) : string =
@@ -771,6 +846,23 @@ let handle (op : string) (a : string array) : string =
      | Err LDecode -> "err decode"
      | Err (LSyntax0 e) -> perr_s e
      | Crash c -> "crash " ^ crash_name c)
+  | "perlbrace" -> perl_res_s (fst (perl_parse_ucd (arg_str a.(0))))
+  | "perlsteps" -> string_of_int (int_of_nat (snd (perl_parse_ucd (arg_str a.(0)))))
+  | "fmtpy" -> fmtpy_res_s (fmtpy_parse_gen (arg_str a.(0)))
+  | "cpysyn" -> let s = arg_str a.(0) in
+    (if cpy_syntax_error s then "syn=1" else "syn=0") ^ (if plain_percents s then " plain=1" else " plain=0")
+    ^ " " ^ String.concat " " (List.map event_s (cpy_events s))
+  | "cpyfmt" -> cres_s (cpy_format (arg_str a.(0)) (fst (arg_val a 1)))
+  | "pybrace" -> pybrace_res_s (pybrace_parse_gen (arg_str a.(0)))
+  | "cpymarkup" -> (match cpy_markup (arg_str a.(0)) with
+                    | None -> "err"
+                    | Some l -> "ok " ^ String.concat " " (List.map mitem_s l))
+  | "cpybrace" -> (* str nargs v... nkw key v ... *)
+    let n = arg_int a.(1) in
+    let args = List.init n (fun i -> bval_of a.(2 + i)) in
+    let nk = arg_int a.(2 + n) in
+    let kw = List.init nk (fun i -> (arg_str a.(3 + n + 2 * i), bval_of a.(4 + n + 2 * i))) in
+    fres_s (cpy_format0 re_d_value (arg_str a.(0)) args kw)
   | _ -> "unknown-op " ^ op
 
 let () =
